@@ -11,7 +11,11 @@ COMMON_ASSUMPTIONS = [
 import gens
 
 GENERATORS = {"probe": gens.gen_probe, "c04_quick": gens.gen_c04("quick"), "c04_thorough": gens.gen_c04("thorough"),
-              "c10_quick": gens.gen_c10("quick"), "c10_thorough": gens.gen_c10("thorough")}
+              "c10_quick": gens.gen_c10("quick"), "c10_thorough": gens.gen_c10("thorough"),
+              "c12_quick": gens.gen_c12("quick"), "c12_thorough": gens.gen_c12("thorough"),
+              "c20_quick": gens.gen_c20("quick"), "c20_thorough": gens.gen_c20("thorough"),
+              "c01_quick": gens.gen_c01("quick"), "c01_thorough": gens.gen_c01("thorough"),
+              "c02_quick": gens.gen_c02("quick"), "c02_thorough": gens.gen_c02("thorough")}
 
 # interim reasons while the framework is being built (kept current with every commit)
 NOT_YET = {}
@@ -73,7 +77,56 @@ PROPS = {
         "bounds": {"all": "17 streams x every position x 8 scripts; bodies up to 4 bytes (130 for the long-length prefix); header length 2..6"},
         "outside": "bodies longer than 4 bytes at full length; schedules are covered by induction over the invariant, which is part of the trusted argument; "
                    "the real Header types inside the poll loop (bytes read back from the MaybeUninit buffer are not constants for symbolic execution)",
-        "tiers": {"quick": {"modules": ["p_c05"], "timeout_s": 600, "mem_gb": 10, "jobs": 16}, "thorough": {"modules": ["p_c05"], "timeout_s": 1800, "mem_gb": 16}},
+        "tiers": {"quick": {"modules": ["p_c05"], "select": r"^(?!c05_steps_all_rem4$)", "timeout_s": 600, "mem_gb": 10, "jobs": 16}, "thorough": {"modules": ["p_c05"], "timeout_s": 1800, "mem_gb": 16}},
+    },
+    "C12": {
+        "level": "model_checking",
+        "claim": "For every text-bearing field role of both families the query in which exactly that validator call is in its invalid class shows the frame is "
+                 "rejected (never a packet holding invalid UTF-8 / an invalid topic), and the all-valid queries show every returned string equals the validated bytes, "
+                 "packet identifiers are non-zero and variable-byte-integer fields are below 2^28.",
+        "note": "class stubs fix each validator verdict per query (invalid class: assume(!model(input)); Err); the validators themselves are C16-C18 and the UTF-8 lemma; "
+                "a decoder path that skips a validator leaves the content unconstrained and fails the accepted-packet obligations",
+        "functions": ["read_string", "TopicName::try_from / TopicFilter::try_from call sites in every body decoder", "decode_properties! string arms", "v5 payload format checks"],
+        "bounds": {"quick": "25 text-bearing shapes, strings of 1-2 bytes, one invalid field at a time", "thorough": "+8 shapes, strings up to 4 bytes"},
+        "outside": "two or more invalid fields at once; strings longer than 4 bytes; shared-subscription filters in packets",
+        "tiers": {"quick": {"modules": ["g_c12"], "generators": ["c12_quick"], "timeout_s": 600, "mem_gb": 8, "jobs": 14},
+                  "thorough": {"modules": ["g_c12"], "generators": ["c12_thorough"], "timeout_s": 1200, "mem_gb": 10, "jobs": 12}},
+    },
+    "C20": {
+        "level": "model_checking",
+        "claim": "For each catalogue malformation the single-violation obligation is decided: whenever exactly one spec-side constraint of a shape is violated "
+                 "(symbolic scalar: zero pid, QoS 3, return/reason code outside the table, reserved flag/option bits, bad boolean property; shape-level: connect flags, "
+                 "empty subscription, unknown/duplicated/disallowed property, wrong property length, body on a body-less packet; class-level: non-UTF-8 string, wildcard in topic "
+                 "name, invalid filter, invalid response topic, invalid payload format) the strict decoder returns the documented variant carrying the offending value.",
+        "note": "strict decoder composition as in C04; agreement of the blocking/async front-ends with it is C06",
+        "functions": ["as C04"],
+        "bounds": {"all": "one shape per packet type for scalar malformations, every shape-level malformation of the C04 catalogue, invalid-class queries for 12 (quick) / all (thorough) text shapes"},
+        "outside": "two simultaneous malformations (any error accepted); InvalidRemainingLength-vs-incomplete split is C06/C07's subject",
+        "tiers": {"quick": {"modules": ["g_c20"], "generators": ["c20_quick"], "timeout_s": 600, "mem_gb": 8, "jobs": 14},
+                  "thorough": {"modules": ["g_c20"], "generators": ["c20_thorough"], "timeout_s": 1200, "mem_gb": 10, "jobs": 12}},
+    },
+    "C01": {
+        "level": "model_checking",
+        "claim": "Round trip per canonical shape, split as DESIGN R3c prescribes: (i) the body encoder's bytes equal the spec wire image of the symbolic field values and "
+                 "(ii) the strict decoder on that wire image returns exactly those field values with the exact total; (i) and (ii) together are decode(encode(p)) = p for the shape.",
+        "note": "poll front-end via the C05 composition; blocking/async agreement is C06; packet-level header glue is C09/C10",
+        "functions": ["Encodable::encode of every body", "every body decode_async (twin)", "strict decoder composition"],
+        "bounds": {"quick": "about 90 canonical shapes (every packet type, every property once)", "thorough": "all canonical shapes of the C04 catalogue"},
+        "outside": "as C04 and C10",
+        "tiers": {"quick": {"modules": ["g_c01"], "generators": ["c01_quick"], "timeout_s": 600, "mem_gb": 8, "jobs": 14},
+                  "thorough": {"modules": ["g_c01"], "generators": ["c01_thorough"], "timeout_s": 1200, "mem_gb": 10, "jobs": 12}},
+    },
+    "C02": {
+        "level": "model_checking",
+        "claim": "For every canonical shape: bytes written by the streaming body encoder = encode_len() = the specification's body size; for one shape per packet type "
+                 "Packet::encode emits encode_len() bytes with a minimal remaining-length field equal to the bytes that follow. The debug assertion in encode_packet is an "
+                 "obligation too (Kani analyses the dev profile); replay runs dev and release.",
+        "note": "width boundaries of the remaining length (127/128 ... 268435455/268435456) are decided for total_len/var_int_len/write_var_int over their complete domains by C15",
+        "functions": ["every Encodable::{encode, encode_len}", "Packet::{encode, encode_len}", "encode_packet", "total_len"],
+        "bounds": {"quick": "canonical shapes of the C04 catalogue", "thorough": "thorough catalogue"},
+        "outside": "field contents longer than 4 bytes (length arithmetic on them is linear; boundaries via C15)",
+        "tiers": {"quick": {"modules": ["g_c02_v3", "g_c02_v5"], "generators": ["c02_quick"], "timeout_s": 600, "mem_gb": 8, "jobs": 14},
+                  "thorough": {"modules": ["g_c02_v3", "g_c02_v5"], "generators": ["c02_thorough"], "timeout_s": 1200, "mem_gb": 10, "jobs": 12}},
     },
     "C19": {
         "level": "model_checking",
